@@ -14,7 +14,7 @@ fn gen(r: &mut Rng, _cfg: &RunCfg) -> Case {
         4..=5 => gen_line(r, TextDomain::Any),
         6 => {
             // lines with embedded CR / LF / U+2028
-            let m = Mix::swarm(r, &[Class::Ascii, Class::Wide, Class::Zero, Class::Punct, Class::Space, Class::Para, Class::Clean, Class::Scalars]);
+            let m = Mix::swarm(r, &[Class::Ascii, Class::Wide, Class::Zero, Class::Punct, Class::Space, Class::Para, Class::Clean, Class::Scalars, Class::Real, Class::RealStyled, Class::Repeat]);
             { let n = r.range(1, 12); m.text(r, n) }
         }
         _ => {
